@@ -444,6 +444,30 @@ void opSetPos(DynamicBitset& d, Model& m, size_t pos, bool val, bool defaultArg)
    expectState(d, m);
 }
 
+/// positions that no bitset can hold (at or beyond max_size(), up to SIZE_MAX): refused with std::length_error
+/// (std::bad_alloc tolerated), the bitset stays as it is - the growth arithmetic (1.5 x position) must not wrap
+void opHugePos(DynamicBitset& d, Model& m, size_t pos, int which)
+{
+   static const char* const names[4] = { "set(pos)", "reset(pos)", "flip(pos)", "operator[] (write)" };
+   beginOp(std::string(names[which]) + " huge", fmt("pos=%zu state=", pos) + show(m));
+   bool threw = false;
+   try
+   {
+      switch (which)
+      {
+      case 0: d.set(pos); break;
+      case 1: d.reset(pos); break;
+      case 2: d.flip(pos); break;
+      default: d[pos] = true; break;
+      }
+   }
+   catch (const std::length_error&) { threw = true; }
+   catch (const std::bad_alloc&) { threw = true; }
+   out.stat("ops.huge_position");
+   if (!threw) fail("huge-position", "no exception for a position that no bitset can hold");
+   expectState(d, m);
+}
+
 void opResetPos(DynamicBitset& d, Model& m, size_t pos)
 {
    beginOp("reset(pos)", fmt("pos=%zu state=", pos) + show(m));
@@ -1053,6 +1077,11 @@ void history(uint64_t idx, uint64_t seed, const std::string& mode, unsigned nops
       else if (pick < 24) opFlipPos(d, m, pickPos(r, n, mayGrow));
       else if (pick < 28) opIndexRead(d, m, pickPos(r, n, mayGrow));
       else if (pick < 36) opIndexWrite(d, m, pickPos(r, n, mayGrow), r.chance(3, 4));
+      else if (pick < 37 && r.chance(1, 3))
+      {
+         static const size_t HUGE_POS[] = { SIZE_MAX, SIZE_MAX - 1, 0xAAAAAAAAAAAAAAAAull, 0xC000000000000000ull, SIZE_MAX / 2 + 1, SIZE_MAX / 3 * 2 + 1, 0xAAAAAAAAAAAAAAA0ull };
+         opHugePos(d, m, HUGE_POS[r.below(sizeof HUGE_POS / sizeof HUGE_POS[0])], (int)r.below(3));      // not operator[]: declared noexcept, a position it cannot reach ends in std::terminate
+      }
       else if (pick < 40) opConstAccess(d, m, pickPos(r, n, true), true);
       else if (pick < 44) opConstAccess(d, m, pickPos(r, n, true), false);
       else if (pick < 46) opSetAll(d, m);
